@@ -28,6 +28,10 @@ def builders(c, which, n=2):
     if which == 'Gaussian': return (Gaussian(m, v, name='x'), None, lambda o: o.logd(xp))
     if which == 'Gaussian:conditional':
         return (Gaussian(lambda mu: mu, lambda s: s * np.ones(n), geometry=n, name='x'), dict(mu=c.vec('mu', n), s=c.real('s', pos=True)), None)
+    if which == 'Gaussian:partial3':
+        # callable parameter with three free arguments, conditioned in stages: a first, then b, c still free
+        STAGE2[which] = dict(b=c.vec('b', n))
+        return (Gaussian(lambda a, b, t: a + 2 * b + t, v, name='x'), dict(a=c.vec('a', n)), None)
     if which == 'Gaussian:partial': return (Gaussian(lambda mu, t: mu + t, v, name='x'), dict(mu=c.vec('mu', n)), None)
     if which == 'Lognormal': return (Lognormal(m, v, name='x'), None, None)
     if which == 'RegularizedGaussian':
@@ -67,7 +71,11 @@ def _observables(o):
     return obs
 
 
+STAGE2 = {}
+
+
 def frame_job(c, which):
+    STAGE2.clear()
     obj, cond, probe = builders(c, which)
     if c.sym and which.startswith('GMRF'): shims.symbolize_operators(obj)      # shared (by shallow copy) with every derived object
     obs0 = _observables(obj)              # queries that may fill declared lazy caches
@@ -121,6 +129,20 @@ def frame_job(c, which):
         if hasattr(dobj, 'enable_FD') and dobj is not obj:
             dobj.enable_FD(1e-6); unchanged(f'derived[{k}].enable_FD')
             if hasattr(obj, 'FD_enabled'): c.holds(f'derived[{k}].enable_FD_does_not_leak_to_original', not obj.FD_enabled)
+    if which in STAGE2 and len(derived) == 2:
+        # staged conditioning: the intermediate object and its sibling stay what they were when a further variable is fixed
+        Si, Ss = frame.snapshot(derived[0], EXC), frame.snapshot(derived[1], EXC)
+        cv0 = tuple(derived[0].get_conditioning_variables())
+        further = derived[0](**STAGE2[which]); unchanged('staged_condition')
+        c.holds('staged:intermediate_snapshot_unchanged', frame.same(Si, frame.snapshot(derived[0], EXC)), note='; '.join(frame.diff(Si, frame.snapshot(derived[0], EXC))))
+        c.holds('staged:intermediate_keeps_its_conditioning_variables', tuple(derived[0].get_conditioning_variables()) == cv0, note=f"{derived[0].get_conditioning_variables()} vs {cv0}")
+        c.holds('staged:sibling_unchanged', frame.same(Ss, frame.snapshot(derived[1], EXC)), note='; '.join(frame.diff(Ss, frame.snapshot(derived[1], EXC))))
+        c.holds('staged:result_has_one_variable_less', set(further.get_conditioning_variables()) == set(cv0) - set(STAGE2[which]), note=str(further.get_conditioning_variables()))
+        # fixing the last variable in either order gives the same distribution value
+        t = c.vec('t', derived[0].dim); xx = c.vec('xx', derived[0].dim)
+        full1 = further(t=t); full2 = derived[1](t=t)(**STAGE2[which])
+        c.eq('staged:order_of_conditioning_does_not_matter', full1.logd(xx), full2.logd(xx))
+        c.eq('staged:value_is_that_of_the_fully_specified_distribution', full1.logd(xx), Gaussian(cond['a'] + 2 * STAGE2[which]['b'] + t, full1.cov).logd(xx))
     if len(derived) == 2:
         # objects derived from a common original do not influence one another
         Sd = frame.snapshot(derived[1], EXC)
@@ -187,7 +209,7 @@ def jobs(tier):
           'cuqi.distribution._distribution:Distribution.to_likelihood', 'cuqi.distribution._distribution:Distribution.geometry',
           'cuqi.distribution._joint_distribution:JointDistribution._condition', 'cuqi.likelihood._likelihood:Likelihood._condition',
           'cuqi.implicitprior._regularizedGaussian:RegularizedGaussian._condition', 'cuqi.model._model:Model.forward']
-    for which in ('Gaussian', 'Gaussian:conditional', 'Gaussian:partial', 'Lognormal', 'RegularizedGaussian', 'GMRF:conditional', 'Gamma:conditional',
+    for which in ('Gaussian', 'Gaussian:conditional', 'Gaussian:partial', 'Gaussian:partial3', 'Lognormal', 'RegularizedGaussian', 'GMRF:conditional', 'Gamma:conditional',
                   'DataDistribution', 'Likelihood', 'Posterior', 'Joint', 'Joint:independent_factor'):
         J.append(Job(f'frame:{which}', lambda c, w=which: frame_job(c, w), 'Pbox', FL, maxpaths=256, timeout=600))
     J.append(Job('frame:model_application_and_reconditioning', model_application, 'Pbox', FL))
